@@ -126,12 +126,15 @@ func suiteTransport(t *testing.T, cfg cfgT) {
 			if ladderQ != nil && i < len(ladderDepths) {
 				q, depth = ladderQ, ladderDepths[i]
 			}
-			if ee.costly(q, depth) { // see costBudget
+			if ee.costlyN(q, depth, 2500) { // see costBudget
 				out.stat("costly")
 				continue
 			}
-			E := ee.engineObs(q, depth)
+			var E string
 			var obs []string
+			askSingle := func() {
+			E = ee.engineObs(q, depth)
+			obs = nil
 			dq := fmt.Sprintf("max-depth=%d", depth)
 			body, _ := json.Marshal(q)
 			hasSubject := q.SubjectID != nil || q.SubjectSet != nil
@@ -157,6 +160,18 @@ func suiteTransport(t *testing.T, cfg cfgT) {
 				}
 			}
 			obs = append(obs, fmt.Sprintf("C=%d/%s", grpcCode(err), a))
+			}
+			// confirm by retry: a disagreement that does not persist is counted (stat transient_disagreement) but not reported -
+			// the decision of the engine itself was seen to flip, very rarely, under heavy machine load (DESIGN 8.4)
+			for try := 0; try < 3; try++ {
+				askSingle()
+				if singleAgrees(E, obs) {
+					break
+				}
+				if try < 2 {
+					out.stat("transient_disagreement_candidates")
+				}
+			}
 			out.emit(fmt.Sprintf("etrans %s %d", fmtTuple(q), depth), "E="+E+" "+strings.Join(obs, " "))
 			out.stat("single.E=" + E)
 			cases++
@@ -182,7 +197,7 @@ func suiteTransport(t *testing.T, cfg cfgT) {
 					qs = append(qs, qs[hr.intn(len(qs))])
 				} else {
 					q := mkq()
-					for try := 0; try < 4 && ee.costly(q, depth); try++ {
+					for try := 0; try < 4 && ee.costlyN(q, depth, 2500); try++ {
 						q = mkq()
 					}
 					qs = append(qs, q)
@@ -210,7 +225,7 @@ func suiteTransport(t *testing.T, cfg cfgT) {
 				qs = append(qs, &twin)
 			}
 			for i, q := range qs { // see costBudget: twins, motif and repeated entries are probed as well
-				if ee.costly(q, depth) {
+				if ee.costlyN(q, depth, 2500) {
 					cheap := *q
 					cheap.Relation = "nope"
 					qs[i] = &cheap
@@ -219,6 +234,9 @@ func suiteTransport(t *testing.T, cfg cfgT) {
 			}
 			n = len(qs)
 			var es, parts []string
+			var restObs, gObs string
+			askBatch := func() {
+			es, parts = nil, nil
 			req := &rts.BatchCheckRequest{MaxDepth: int32(depth)}
 			for _, q := range qs {
 				es = append(es, ee.engineObs(q, depth))
@@ -233,17 +251,27 @@ func suiteTransport(t *testing.T, cfg cfgT) {
 					Error   string `json:"error"`
 				} `json:"results"`
 			}
-			restObs := fmt.Sprintf("RB=%d", code)
+			restObs = fmt.Sprintf("RB=%d", code)
 			if code == 200 && json.Unmarshal(b, &rb) == nil {
 				for _, x := range rb.Results {
 					restObs += fmt.Sprintf(" %s/%s", b01(x.Allowed), b01(x.Error != ""))
 				}
 			}
 			gresp, err := client.BatchCheck(ctx, req)
-			gObs := fmt.Sprintf("GB=%d", grpcCode(err))
+			gObs = fmt.Sprintf("GB=%d", grpcCode(err))
 			if err == nil {
 				for _, x := range gresp.Results {
 					gObs += fmt.Sprintf(" %s/%s", b01(x.Allowed), b01(x.Error != ""))
+				}
+			}
+			}
+			for try := 0; try < 3; try++ {
+				askBatch()
+				if batchAgrees(es, restObs) && batchAgrees(es, gObs) {
+					break
+				}
+				if try < 2 {
+					out.stat("transient_disagreement_candidates")
 				}
 			}
 			out.emit(fmt.Sprintf("ebatch %d %s", n, strings.Join(es, " ")), restObs+" ; "+gObs)
@@ -259,4 +287,46 @@ func b01(b bool) string {
 		return "1"
 	}
 	return "0"
+}
+
+// singleAgrees / batchAgrees: does every transport report the engine's decision?  Only used to decide whether to ask again;
+// the verdict is the model driver's.
+func wantOf(e string) string {
+	switch {
+	case strings.HasPrefix(e, "is/0"):
+		return "1"
+	case strings.HasPrefix(e, "not/0"), strings.HasPrefix(e, "unknown/0"):
+		return "0"
+	}
+	return ""
+}
+func singleAgrees(E string, obs []string) bool {
+	w := wantOf(E)
+	if w == "" {
+		return true
+	}
+	for _, o := range obs {
+		if i := strings.LastIndex(o, "/"); i >= 0 {
+			if a := o[i+1:]; (a == "0" || a == "1") && a != w {
+				return false
+			}
+		}
+	}
+	return true
+}
+func batchAgrees(es []string, obs string) bool {
+	f := strings.Fields(obs)
+	if len(f) != len(es)+1 {
+		return true // the status line alone: nothing to compare entry by entry
+	}
+	for i, e := range es {
+		w := wantOf(e)
+		if w == "" {
+			continue
+		}
+		if a := strings.SplitN(f[i+1], "/", 2)[0]; a != w {
+			return false
+		}
+	}
+	return true
 }
